@@ -506,11 +506,11 @@ func keysOf(m map[string]bool) []string {
 func init() {
 	register(&Property{
 		ID:    "C03",
-		Rules: []string{"C03-R1", "C03-R2", "C03-R3", "C03-R5", "C03-R6", "C03-R7", "C03-R8", "C01-R4", "C01-R5", "C02-R5"},
+		Rules: []string{"C03-R1", "C03-R2", "C03-R3", "C03-R5", "C03-R6", "C03-R7", "C03-R8", "C03-R9", "C03-R10", "C01-R4", "C01-R5", "C02-R5"},
 		Explain: "Decides the structure that makes the balance tree conserve quantities: C03-R1 every range over TreeNode.Children is collect-then-sort on the name (siblings sorted, no order-dependent accumulation); " +
 			"C03-R2 chain collapsing propagates the empty 'forks below' sentinel; C03-R3 the single-element reporter expands like every other site and feeds tree and grand total in the same branches (C07-R1 restricted to balance); " +
 			"C03-R5 every printing traversal prints exactly one row per child with the child's own Total and skips a subtree only for a leaf, a joined chain, or collapse-last on a single leaf grandchild; " +
-			"C03-R6 TreeNode.Add links a new name and accumulates into an existing one; C03-R8 AddDeep gives every segment of the split name a node with the element's value, whatever the value or the segment; C03-R7 a printed grand total is a scalar Process feeds together with the tree; " +
+			"C03-R6 TreeNode.Add links a new name and accumulates into an existing one; C03-R8 AddDeep gives every segment of the split name a node with the element's value, whatever the value or the segment; C03-R7 a printed grand total is a scalar Process feeds together with the tree; C03-R10 every row format of package balance is built from constants (a path is an argument, never part of the format); C03-R9 the balance reporter selector returns the element-filtering reporter exactly when a single element is requested, whatever the collapse switches; " +
 			"C01-R4/R5 and C02-R5 (shared) the resolved lists and the per-day food lists the balance sums over are merged by name, one slot per name, nothing dropped.",
 		NotDecided: "conservation itself (parent = own + children is a fact about float sums over all trees), equality of leaf sets between display modes, the prefix-of-another-name case",
 		Run: func(c *core.Ctx) {
@@ -524,6 +524,8 @@ func init() {
 			ruleTreeAdd(c, "C03-R6")
 			ruleAddDeep(c, "C03-R8")
 			ruleGrandTotal(c, "C03-R7")
+			ruleConstFormats(c, "C03-R10", func(fn *ssa.Function) bool { return inPkgs(fn, balancePkg) })
+			ruleReporterSelection(c, "C03-R9", func(fn *ssa.Function) bool { return inPkgs(fn, balancePkg) })
 			// the single-element balance reads one amount per resolved element: the lists must be duplicate-free (C01's discipline),
 			// and a day's foods are merged by name before they reach any reporter
 			for _, r := range recursiveResolvers(c.P) {
